@@ -1554,6 +1554,13 @@ func (dsc *dataStoreCommand) lmove(srcKeyName, destKeyName string, srcLeft, dest
 		return
 	}
 
+	if srcList == destList && srcList.count == 1 {
+		// rotating a one-element list changes nothing (popping it would drop the key)
+		uk.elements = 1
+		output.data = respBulkString(srcList.head.element)
+		return
+	}
+
 	// remove the item from the source list
 	var item *listItem
 	if srcLeft {
